@@ -537,4 +537,45 @@ theorem extract_total_on_trees (d : Nat) (p : Prog) (hl : Lexes d p) :
   | none => exact deviation_rejected_partial d p hl he
   | some ts => exact valid_walk_extracts_partial d p hl ts he
 
+/-! ### non-vacuity: concrete streams for which the lexing hypothesis is proved by evaluation -/
+
+/-- `BT (a) Tj ET` -/
+def exOk : Prog :=
+  { lead := [], insts := [⟨[], Fig9.BT, [32]⟩, ⟨[(.atom (.lit [97]), [32])], Fig9.Tj, [32]⟩, ⟨[], Fig9.ET, []⟩] }
+
+/-- `BT q ET` (a special-graphics-state operator inside a text object) -/
+def exBad : Prog :=
+  { lead := [], insts := [⟨[], Fig9.BT, [32]⟩, ⟨[], [113], [32]⟩, ⟨[], Fig9.ET, []⟩] }
+
+/-- evaluation of one tokenizer call on concrete bytes -/
+macro "lex_eval" : tactic => `(tactic|
+  simp [exOk, exBad, Prog.render, renderInsts, Inst.render, renderArgs, Operand.render, Atom.render,
+    Fig9.BT, Fig9.ET, Fig9.Tj, csObjP, skipWs, skipWsAux, Content.isWs, operatorP, isDelim, normHex,
+    validUtf8, litStringP, litLoop, Content.isDigit])
+
+theorem exOk_lexes : Lexes 1 exOk := by
+  refine ⟨[.op Fig9.BT, .val (.str [97]), .op Fig9.Tj, .op Fig9.ET], ?_, ?_⟩
+  · exact .cons (objs := []) .nil (.cons (objs := [.str [97]]) (.cons rfl .nil) (.cons (objs := []) .nil .nil))
+  · refine .cons (r := [32, 40, 97, 41, 32, 84, 106, 32, 69, 84]) ⟨by decide, by decide, by lex_eval⟩ ?_
+    refine .cons (r := [32, 84, 106, 32, 69, 84]) ⟨by decide, by decide, by lex_eval⟩ ?_
+    refine .cons (r := [32, 69, 84]) ⟨by decide, by decide, by lex_eval⟩ ?_
+    refine .cons (r := []) ⟨by decide, by decide, by lex_eval⟩ ?_
+    exact .nil rfl
+
+theorem exBad_lexes : Lexes 1 exBad := by
+  refine ⟨[.op Fig9.BT, .op [113], .op Fig9.ET], ?_, ?_⟩
+  · exact .cons (objs := []) .nil (.cons (objs := []) .nil (.cons (objs := []) .nil .nil))
+  · refine .cons (r := [32, 113, 32, 69, 84]) ⟨by decide, by decide, by lex_eval⟩ ?_
+    refine .cons (r := [32, 69, 84]) ⟨by decide, by decide, by lex_eval⟩ ?_
+    refine .cons (r := []) ⟨by decide, by decide, by lex_eval⟩ ?_
+    exact .nil rfl
+
+/-- the hypotheses of `valid_walk_extracts_partial` are satisfiable and give the documented tokens -/
+example : extract 1 exOk.render = .ok [.space, .raw [97], .space] :=
+  valid_walk_extracts_partial 1 exOk exOk_lexes _ (by decide +kernel)
+
+/-- the hypotheses of `deviation_rejected_partial` are satisfiable -/
+example : extract 1 exBad.render = .err .guard :=
+  deviation_rejected_partial 1 exBad exBad_lexes (by decide +kernel)
+
 end Parsley.C12
